@@ -72,6 +72,8 @@ def call(cb: Any, e: ast.Call, s: St, quiet: bool) -> tuple[Any, St]:
         return SV((), f'len({norm(e.args[0])})', 'num'), s
     if fn in ('int', 'float', 'abs') and len(e.args) == 1:
         v, s = cb.ev(e.args[0], s, quiet)
+        if fn == 'int' and isinstance(v, SV) and v.kind == 'flag' and v.text in ('True', 'False'):
+            return SV((), '1' if v.text == 'True' else '0', 'num'), s
         return (v if isinstance(v, SV) else SV((), norm(e), 'num')), s
     if fn in ('min', 'max', 'math.sqrt', 'sum') and e.args:
         vs = []
@@ -156,7 +158,7 @@ def call(cb: Any, e: ast.Call, s: St, quiet: bool) -> tuple[Any, St]:
             for t in ts[1:]:
                 ax = ('cat', ax, t.axes[d])
             u = ts[0].unit
-            consts = {t.const for t in ts}
+            it.events.append(('cat', f, e, (d, n, [t.const for t in ts], [t.axes[d] for t in ts])))
             return TV(ts[0].axes[:d] + (ax,) + ts[0].axes[d + 1:], u, ts[0].dtype, frozenset({'bias-ones'} if any(t.const == '1' for t in ts[1:]) else set()), frozenset(), None, ts[0].coef, ''), s
         return it.top(f, e, f'cat of {lst}'), s
     if fn in ('torch.empty', 'torch.zeros', 'torch.ones'):
@@ -210,7 +212,7 @@ def call(cb: Any, e: ast.Call, s: St, quiet: bool) -> tuple[Any, St]:
                     if pads[k] != pads[k + 1]:
                         it.events.append(('pad-asym', f, e, (axes[i], pads[k], pads[k + 1])))
                     axes[i] = ('pad', axes[i], pads[k])
-            return replace(x, axes=tuple(axes)), s
+            return replace(x, axes=tuple(axes), alias=frozenset()), s
         return it.top(f, e, 'pad'), s
     if fn.startswith('torch.distributed.') or fn.startswith('dist.'):
         prim = fn.split('.')[-1]
@@ -305,6 +307,12 @@ def tensor_method(cb: Any, e: ast.Call, x: TV, m: str, args: list, s: St, quiet:
         ax = list(x.axes)
         ax[i], ax[j] = ax[j], ax[i]
         return replace(x, axes=tuple(ax), src=f't({x.src})' if x.src and n == 2 else ''), s
+    if m == 'permute' and args:
+        dims = args if len(args) > 1 else (list(args[0].items) if isinstance(args[0], ListV) else args)
+        idx = [dim_of(d, len(x.axes)) for d in dims]
+        if None in idx or sorted(idx) != list(range(len(x.axes))):
+            return it.top(f, e, 'permute dims'), s
+        return replace(x, axes=tuple(x.axes[i] for i in idx), src=''), s
     if m in ('contiguous', 'detach', 'cpu', 'cuda'):
         return x, s
     if m == 'clone':
